@@ -80,15 +80,7 @@ Fixpoint sjoin (l : list string) : string :=
 
 (* the side condition of idempotence, on the observed tokens: no token is an operator word, none
    contains a byte that the sanitizer rewrites or treats as white space, all are lower-case ASCII *)
-Definition op_words : list string :=
-  ["and"; "or"; "not"; "eq"; "-eq"; "equals"; "neq"; "-neq"; "ne"; "-ne"; "le"; "-le"; "leq"; "-leq";
-   "ge"; "-ge"; "geq"; "-geq"; "g"; "-g"; "gt"; "-gt"; "greater"; "l"; "-l"; "lt"; "-lt"; "less"]%string.
-Definition plain_char (c : ascii) : bool :=
-  let n := N_of_ascii c in
-  (n <? 128)%N && negb ((65 <=? n) && (n <=? 90))%N && negb (n =? 12)%N
-  && negb (inb c ["*"; "+"; "{"; "}"; "["; "]"]%char).
-Definition plain_tokens (ts : list string) : bool :=
-  forallb (fun t => negb (existsb (String.eqb t) op_words) && forallb plain_char (B t)) ts.
+Definition plain_tokens (ts : list string) : bool := plain_toks (map B ts).
 
 Definition big_text (pieces : list (string * N)) : bytes :=
   flat_map (fun p => List.concat (List.repeat (B (fst p)) (N.to_nat (snd p)))) pieces.
